@@ -1,7 +1,7 @@
 (** Property C12 - paths resolve under their relativity root; home directories are write-protected.
     Theorem statements only. *)
 From Coq Require Import NArith List Bool String.
-From Exactly Require Import Lib.Harness Model.Paths Spec.C12 Proofs.PathsParse Proofs.PathsJoin Proofs.PathsValid Gen.C12_tables.
+From Exactly Require Import Lib.Harness Model.Paths Spec.C12 Proofs.PathsParse Proofs.PathsJoin Proofs.PathsValid Proofs.PathsMeaning Gen.C12_tables.
 Import ListNotations.
 Local Open Scope N_scope.
 
@@ -78,14 +78,33 @@ Theorem C12_chain_relativity : forall tbl n r,
 Proof. exact chain_relativity. Qed.
 Print Assumptions C12_chain_relativity.
 
-(** Resolution.  A resolved path with relativity [r] none of whose PATH-STRINGs (its own and those of the
-    symbol definitions it is built from) is absolute denotes the root directory of [r] followed by the
-    components of those PATH-STRINGs, in order - for every env.
-    PARTIAL: (1) the guard [ddv_parts_rel]; without it the clause is refuted (next theorems, KF-C12-1);
-    (2) that the parser maps every documented argument form to the (relativity, PATH-STRING) pair the manual
-    describes is proved here only for the relativity ([C12_creation_target_relativity_partial],
-    [C12_chain_relativity]); for the suffix it is checked by the correspondence run against the
-    declarative [spec_meaning] (predicate [P_resolves]). *)
+(** Resolution, end to end.  For every list of definitions that symbol validation accepts ([run_defs]: def
+    string / path / list / other, path definitions parsed with the configuration of [def]), every argument
+    configuration [c] of an instruction argument, every argument [a] (a relativity option, the default
+    relativity, -rel SYMBOL, a leading symbol reference, plain strings with embedded string symbols; any
+    chain of definitions): if parse accepts and the path resolves to [d], then the declarative reading of the
+    manual ([spec_meaning], Spec/C12.v) gives the argument a meaning [m], and for EVERY env (in particular every
+    current directory at the time of use) the resolved absolute path is [denote e m] - the documented root
+    directory joined with the suffix - and the relativity symbol validation judges is that of [m].
+    PARTIAL, guards: [ddv_parts_rel d] - no PATH-STRING that is joined to a root is absolute; [explicit_ok] /
+    [defs_explicit_ok] - where a relativity is given explicitly (in the argument or in a path definition) the
+    PATH-STRING is not absolute and the relativity is not -rel-here.  Without the guards the clause is refuted
+    ([C12_resolves_under_root_refuted], known finding KF-C12-1).  -rel-here (only available in def) is not
+    covered by this theorem; the correspondence run covers it. *)
+Theorem C12_argument_resolves_to_documented_path_partial : forall here defs tbl c a s d,
+  run_defs here [] 0 defs = (None, tbl) ->
+  c_here c = None ->
+  parse_path c a = PParsed s -> resolve tbl s = Ok d ->
+  ddv_parts_rel d = true -> explicit_ok tbl a = true -> defs_explicit_ok here [] defs = true ->
+  exists m, spec_meaning here defs (c_default c) a = Some m /\
+            (forall e, ddv_value e d = denote e m) /\ ddv_relativity d = meaning_rel m.
+Proof. exact argument_meaning. Qed.
+Print Assumptions C12_argument_resolves_to_documented_path_partial.
+
+(** The same at the level of a resolved value: a path with relativity [r] none of whose PATH-STRINGs (its own
+    and those of the symbol definitions it is built from) is absolute denotes the root directory of [r]
+    followed by the components of those PATH-STRINGs, in order - for every env.
+    PARTIAL: the guard [ddv_parts_rel]; without it the clause is refuted (next theorem, KF-C12-1). *)
 Theorem C12_resolves_under_root_partial : forall d e r,
   ddv_relativity d = Some r -> ddv_parts_rel d = true ->
   ddv_value e d = under (root_of e r) (suffix_parts d).
